@@ -30,6 +30,10 @@ func runC01(c *Ctx) {
 	c01Sink(c, m)
 	c01Body(c, m)
 	identityRule(c, m, "C01.identity")
+	// only upload-form reports are ever queued for sending (never the unfiltered local.* aggregate)
+	c02ReadyNames(c, m, "C01.sink")
+	// each value is the SUM over the week's files, and every local entry takes part in it
+	c07AccumulateAs(c, m, "C01.body")
 }
 
 const rateAcc = cfgRecv + "Rate"
